@@ -236,8 +236,9 @@ def c18(rep, tier):
     for f in facts.functions:
         if f.get('body') is None or f['tmpl'] == 'pattern' or not f['file'].endswith(('macro.cpp', 'parse.cpp', 'scan.cpp', 'gen.cpp', 'compiler.cpp')):
             continue
+        public_api = f['q'] in ('Theo::scan', 'Theo::extract_macros', 'Theo::apply_macros', 'Theo::parse', 'Theo::gen', 'Theo::compile', 'Theo::recover_from_tokens')
         refparams = [p for p in f['params'] if '&' in (p.get('cty') or '') and not (p.get('cty') or '').startswith('const ') and
-                     ('std::vector<' in p['cty'] or 'std::map<' in p['cty']) and 'Theo::MacroDefinition' in p['cty']]
+                     ('std::vector<' in p['cty'] or 'std::map<' in p['cty']) and ('Theo::MacroDefinition' in p['cty'] or public_api)]
         for p in refparams:
             aliases = {p['d']}
             for st in walk_stmts(f['body']):
@@ -249,8 +250,9 @@ def c18(rep, tier):
                         any(x.get('k') == 'ref' and x.get('d') in aliases for a in e['args'] for x in walk_expr(a)):
                     consumed = e
                 if e.get('k') == 'call' and e.get('obj') is not None and strip_casts(e['obj']).get('d') in aliases and \
-                        (e.get('callee') or '').split('::')[-1] in ('clear', 'erase', 'pop_back', 'swap', 'operator=', 'resize', 'assign'):
-                    consumed = e
+                        (e.get('callee') or '').split('::')[-1] in ('clear', 'erase', 'pop_back', 'swap', 'operator=', 'resize', 'assign', 'insert', 'push_back', 'emplace_back', 'emplace', 'operator[]'):
+                    if (e.get('callee') or '').split('::')[-1] != 'operator[]' or 'std::map<' in (p.get('cty') or ''):
+                        consumed = e
             inst = '%s: parameter %s' % (f['q'].split('::')[-1], p['name'])
             P8.check(consumed is None, inst, 'only read', 'the caller\'s %s is modified (%s): a second call with the same objects behaves differently (e.g. apply_macros '
                      'twice with the definitions extracted once)' % (p['name'], show(consumed)[:60] if consumed else ''),
